@@ -159,6 +159,18 @@ theorem static_satisfy_total (vs : Array (Rat × Rat × Rat)) (cs : Array Con)
     · exact Or.inl ⟨_, _, _, rfl⟩
     · exact Or.inr ⟨_, rfl⟩
 
+/-- **static_merge_total**: from ANY state satisfying `WF` in which the model's loop fuel `m + n + 2` covers
+    the number of allocated blocks (always the case during `satisfy`), `mergeLeft` and `mergeRight` on a block
+    that owns a variable end by themselves — they do not touch either fuel flag — and re-establish `WF`:
+    every round of their `while` loops merges two different owning blocks. -/
+theorem static_merge_total (s : SSt) (b : Nat) (hw : WF s) (ho : Owns s.st b)
+    (hle : s.st.blocks.size ≤ s.st.cons.size + s.st.vars.size + 2) :
+    ((mergeLeft s b).hs.fuelOut = s.hs.fuelOut ∧ (mergeLeft s b).st.fuelOut = s.st.fuelOut ∧ WF (mergeLeft s b)) ∧
+    ((mergeRight s b).hs.fuelOut = s.hs.fuelOut ∧ (mergeRight s b).st.fuelOut = s.st.fuelOut ∧ WF (mergeRight s b)) := by
+  obtain ⟨a1, a2, _, a4⟩ := mergeLeft_total s b hw ho hle
+  obtain ⟨b1, b2, _, b4⟩ := mergeRight_total s b hw ho hle
+  exact ⟨⟨a1, a2, a4⟩, ⟨b1, b2, b4⟩⟩
+
 /-! ## the block invariant -/
 
 /-- **static_block_inv_steps**: from ANY state satisfying the invariant `WF` (block invariant, sound member
